@@ -5,17 +5,22 @@ from .common import bump
 ID = "C13"
 AREA = "c13"
 LEAN_PROPS = "Litep2pVerif.Props.C13"
-THEOREMS = ["at_most_one_terminal", "request_located", "exactly_one_at_quiescence_partial", "response_matches_partial",
-            "responder_sees_once_partial", "inbound_bound", "cancel_effect"]
+THEOREMS = ["at_most_one_terminal", "request_located", "active_owned", "exactly_one_at_quiescence", "response_matches",
+            "responder_sees_once", "inbound_delivered", "inbound_bound", "cancel_effect"]
 MANIFEST = {
     "text": "Lean 4 theorems about an operational model of RequestResponseProtocol (same state components and handler "
             "order as request_response/mod.rs; every interleaving of user commands, transport events and completions of "
             "the per-request futures, with arbitrary answers of the transport service): at most one terminal event per "
-            "request id and a ledger invariant locating every issued request in exactly one place (full strength, by "
-            "induction over all histories, on the code with the per-peer dial queue fix), inbound bound, the exact window "
-            "in which a cancel takes effect; partial: exactly one terminal event at quiescence (under the not yet proved "
-            "owner invariant), responder sees a request on at most one substream at a time, one-step response matching. "
-            "The partial ones are checked in full by the oracle on every run. Tied to the code "
+            "request id and a ledger invariant locating every issued request in exactly one place (on the code with the "
+            "per-peer dial queue fix); the owner invariant (every id in an active set is waited for by a pending "
+            "substream or a request future of that very peer), hence exactly one terminal event for every issued request "
+            "in every reachable quiescent state unless its cancel channel fired (then at most one); at most one substream "
+            "is ever opened per request id, the request future is started at most once and only on that substream, "
+            "substream ids are never shared; every inbound id is handed to the user at most once, exactly when its read "
+            "succeeded while registered; every ResponseReceived in the log carries a payload the responder wrote on the "
+            "one substream opened for that request id (ghost maps rid -> substream -> wire content); inbound bound; the "
+            "exact window in which a cancel takes effect. All full strength, by induction over all histories; the "
+            "oracle checks the same statements on the implementation on every run. Tied to the code "
             "by a seeded differential run of the real protocol + handle (injected transport events, in-memory yamux "
             "substreams, paused clock) against the executable model, plus a per-request ledger oracle.",
     "note": "Trusted: Lean kernel; axioms propext/Classical.choice/Quot.sound; the hand-written model and its tie (sampled "
